@@ -110,6 +110,14 @@ def calleeTakes (N : Names) (sums : List Sum) : Nat → Sum → String → List 
   | d + 1, caller, f =>
     (resolve N sums caller f).flatMap (fun s => s.takes ++ s.callees.flatMap (calleeTakes N sums d s))
 
+/-- mutexes a skeleton takes itself, anywhere -/
+def takesL : LS → List String
+  | .lock l => [l]
+  | .seq a b => takesL a ++ takesL b
+  | .ite a b => takesL a ++ takesL b
+  | .loop b => takesL b
+  | _ => []
+
 /-- may-held analysis of a lock skeleton: `(edges, held afterwards)`; a deferred unlock keeps the
     mutex held to the end -/
 def walk (N : Names) (sums : List Sum) (caller : Sum) (depth : Nat) :
@@ -131,7 +139,9 @@ def walk (N : Names) (sums : List Sum) (caller : Sum) (depth : Nat) :
     let r1 := walk N sums caller depth b h
     let h1 := h ++ r1.2.filter (fun x => !h.contains x)
     let r2 := walk N sums caller depth b h1
-    (r1.1 ++ r2.1, h1 ++ r2.2.filter (fun x => !h1.contains x))
+    -- a `break` may leave the loop from the middle of the body: whatever the body takes may be held
+    let h2 := h1 ++ r2.2.filter (fun x => !h1.contains x)
+    (r1.1 ++ r2.1, h2 ++ (takesL b).filter (fun x => !h2.contains x))
   | _, h => ([], h)
 
 def dedup : List (String × String) → List (String × String)
